@@ -46,6 +46,10 @@ MUTS = {
  "c15_breaker_event_unguarded": ("src/redress/policy/policy_helpers.py", "    if on_log is not None:\n        fields = {\"attempt\": 0, \"sleep_s\": 0.0, **tags}\n        try:\n            on_log(event, fields)\n        except Exception:\n            pass", "    if on_log is not None:\n        fields = {\"attempt\": 0, \"sleep_s\": 0.0, **tags}\n        on_log(event, fields)"),
  "c15_narrow_except": ("src/redress/policy/state.py", "                self.on_metric(event, attempt, sleep_s, tags)\n            except Exception:", "                self.on_metric(event, attempt, sleep_s, tags)\n            except (ValueError, RuntimeError, TimeoutError):"),
  "c15_async_bsleep_await_unguarded": ("src/redress/policy/retry_helpers.py", "    try:\n        result = hook(ctx, sleep_s)\n        if inspect.isawaitable(result):\n            await result\n    except Exception:\n        pass", "    try:\n        result = hook(ctx, sleep_s)\n    except Exception:\n        return\n    if inspect.isawaitable(result):\n        await result"),
+ "c17_allow_nolock": ("src/redress/circuit.py", "        now = self._clock()\n        with self._lock:\n            if self._state is CircuitState.OPEN:", "        now = self._clock()\n        if True:\n            if self._state is CircuitState.OPEN:"),
+ "c17_budget_nolock": ("src/redress/budget.py", "        now = time.monotonic()\n        with self._lock:\n            self._prune(now)\n            if len(self._events) + cost", "        now = time.monotonic()\n        if True:\n            self._prune(now)\n            if len(self._events) + cost"),
+ "c17_reentry_deadlock": ("src/redress/circuit.py", "        with self._lock:\n            if self._state is CircuitState.HALF_OPEN:\n                self._probe_in_flight = False", "        with self._lock:\n            if self.state is CircuitState.HALF_OPEN:\n                self._probe_in_flight = False"),
+ "c17_read_before_lock": ("src/redress/circuit.py", "        now = self._clock()\n        with self._lock:\n            if self._state is CircuitState.HALF_OPEN:\n                self._state = CircuitState.OPEN", "        now = self._clock()\n        half = self._state is CircuitState.HALF_OPEN\n        with self._lock:\n            if half:\n                self._state = CircuitState.OPEN"),
  "c10_prune_lt": ("src/redress/budget.py", "self._events[0] <= cutoff", "self._events[0] < cutoff"),
  "c10_cap_ge": ("src/redress/budget.py", "if len(self._events) + cost > self.max_retries:", "if len(self._events) + cost >= self.max_retries:"),
 }
@@ -66,10 +70,10 @@ def main():
         s = s.replace("        sleep_s = strategy(ctx)\n", "        sleep_s = strategy(ctx)\n        raw_s = sleep_s if math.isfinite(sleep_s) and sleep_s > 0 else 0.0\n")
     s = s.replace(old, new, 1); open(p, "w").write(s)
     if os.environ.get("MUT_TESTS"):
-        r = subprocess.run("/venv/bin/python -m pytest -q -x -p no:cacheprovider --no-cov 2>&1 | tail -3", shell=True, cwd=dst, capture_output=True, text=True, env={**os.environ, "PYTHONPATH": dst + "/src"})
+        r = subprocess.run("timeout 120 /venv/bin/python -m pytest -q -x -p no:cacheprovider --no-cov --timeout=20 2>&1 | tail -3", shell=True, cwd=dst, capture_output=True, text=True, env={**os.environ, "PYTHONPATH": dst + "/src"})
         print("repo tests:", r.stdout.strip().splitlines()[-1])
     for c in checks:
-        r = subprocess.run(["./check", c], cwd="/verif", capture_output=True, text=True, env={**os.environ, "VERIF_REPO": dst})
+        r = subprocess.run(["timeout", "900", "./check", c], cwd="/verif", capture_output=True, text=True, env={**os.environ, "VERIF_REPO": dst})
         lines = [l for l in r.stdout.splitlines() if l.startswith(("VIOLATION", "  clause", "OK", "KNOWN"))]
         print(f"[{name}] {c}: exit={r.returncode} " + " | ".join(lines[:4]) + (r.stderr[-300:] if r.returncode == 2 else ""))
     shutil.rmtree("/tmp/verif-mut", ignore_errors=True)
